@@ -124,13 +124,19 @@ func run(c *Case) error {
 	return err
 }
 
+// unfinished is set when a workload was abandoned at its deadline: its workers
+// may still be calling, so the clients are not unmounted under them.
+var unfinished atomic.Bool
+
 func wait(wg *sync.WaitGroup, f *fail, what string) error {
+	unfinished.Store(false)
 	ch := make(chan struct{})
 	go func() { wg.Wait(); close(ch) }()
 	select {
 	case <-ch:
 		return f.get()
 	case <-time.After(deadline):
+		unfinished.Store(true)
 		if e := f.get(); e != nil {
 			return e
 		}
@@ -203,6 +209,11 @@ func runUfs(c *Case) error {
 		}
 	}()
 	err = wait(&wg, f, "ufs workload")
+	if unfinished.Load() {
+		// workers are still calling: unmounting under them would be a workload
+		// the property excludes (and the harness, not go9p, would cause the races)
+		return err
+	}
 	for _, cl := range clnts {
 		cl.Unmount()
 	}
@@ -353,6 +364,9 @@ func runScript(c *Case) error {
 		}
 	}()
 	err := wait(&wg, f, "script workload")
+	if unfinished.Load() {
+		return err // see runUfs
+	}
 	for _, cl := range clnts {
 		cl.Unmount()
 	}
@@ -437,6 +451,7 @@ func runScriptRaw(c *Case) error {
 		go func(ci int) {
 			defer wg.Done()
 			cl := rawc.New(sv.Dial(fmt.Sprintf("c19r-%d", ci)))
+			cl.Timeout = 2 * deadline // the workload's own deadline (wait) fires first and classifies a hang
 			defer cl.Close()
 			ver := "9P2000"
 			if c.Dotu {
